@@ -316,12 +316,7 @@ fn gen_scoring_query(rng: &mut StdRng) -> Value {
         _ => {
             let mut o = qlib::GenOpts::all(2);
             o.avoid_single_should_msm = true;
-            loop {
-                let q = qlib::gen_query(rng, 2, &o);
-                if !qlib::has_phrase_under_mustnot(&q) {
-                    return q;
-                }
-            }
+            qlib::gen_query(rng, 2, &o)
         }
     }
 }
